@@ -65,7 +65,11 @@ func (p *Prog) CallGraph() *CG {
 		callFun := map[ast.Expr]bool{}
 		ast.Inspect(f.Decl.Body, func(x ast.Node) bool {
 			if c, ok := x.(*ast.CallExpr); ok {
-				callFun[Unparen(c.Fun)] = true
+				fun := Unparen(c.Fun)
+				callFun[fun] = true
+				if s, ok := fun.(*ast.SelectorExpr); ok {
+					callFun[s.Sel] = true // the method name of a call is not a function value
+				}
 			}
 			return true
 		})
